@@ -42,7 +42,7 @@ PROPS = {
                    "generated whole-stack executions (two real sockets, all fault classes, all configuration axes) with a content "
                    "oracle at the read boundary, a per-sequence-number content oracle on the wire and accounting cross-checks on "
                    "hooked state. Right level for a property quantified over fault sequences x schedules x inputs x configurations: "
-                   "no finite enumeration exists, so reach comes from workload diversity; the evidence reports what was observed.",
+                   "no finite enumeration exists, so reach comes from workload diversity; the evidence reports what was observed. Real-thread stage: mtstress with the content oracle at every read (plain in both tiers, under ThreadSanitizer in the thorough tier); Miri stage (thorough): small duplex cases interpreted for undefined behaviour in the dependencies' unsafe code as the library drives it.",
         level_note=SIM_NOTE,
         technique="runtime monitoring: boundary + wire content oracles over simulated executions",
         budget=dict(quick=150, thorough=1500),
@@ -65,12 +65,12 @@ PROPS = {
                    "virtual deadline (a hang jumps there at no cost); (b) every single-datagram drop/duplicate/delay position of "
                    "small baseline traces; (c) loss-free fixed-latency executions checked for wire silence > 2L+40ms, idle "
                    "write/shutdown promptness and reader wake-ups in the same logical step. Unbounded 'eventually' is restated as "
-                   "bounded progress; failures are classified by root cause so that one known stall cannot hide another.",
+                   "bounded progress; failures are classified by root cause so that one known stall cannot hide another. A read that is pending when the peer's FIN is handed over in sequence returns in that step (end-of-stream wake-up). Real-thread stage: mtstress (multi-threaded runtime, real clock, writers / readers on other threads than the connection tasks) with completion and content oracles, plain in both tiers and under ThreadSanitizer in the thorough tier.",
         level_note=SIM_NOTE + "; fairness model: per-identity drop budget 1, handshake packets protected (SYNs are not retransmitted, "
                    "the accepting side gives up after 1 s by design), inactivity limit configured large in the fair-lossy family",
         technique="runtime monitoring: bounded-progress and promptness oracles on virtual time + single-fault sweep",
         budget=dict(quick=200, thorough=2400),
-        require=["c02_completion_cases", "c02_directions_completed", "c02_idle_shutdowns_checked", "c02_idle_writes_checked",
+        require=["c02_eof_wakeups_checked", "c02_completion_cases", "c02_directions_completed", "c02_idle_shutdowns_checked", "c02_idle_writes_checked",
                  "c02_reader_wakeups_checked", "c02_single_fault_positions_run", "dropped_datagrams"],
         rule="cases = generated duplex executions (fair-lossy / loss-free profiles) and (baseline, fault position) pairs of the "
              "single-fault sweep; non-trivial = at least one datagram dropped (fair-lossy), more than 6 datagrams (loss-free), "
@@ -88,11 +88,11 @@ PROPS = {
                    "token cancellation hits at a generated time, plus the general duplex family with all loss patterns and call "
                    "orders. Oracles: Ok implies all covered bytes were acknowledged and still reach a reading peer; EOF only after "
                    "every byte below the FIN and never short of a successful shutdown; after a connection ends every pending / later "
-                   "call returns at once and honestly; a vanished peer ends the connection within the inactivity limit.",
+                   "call returns at once and honestly; a vanished peer ends the connection within the inactivity limit. General family, any network: what a successful flush / shutdown covered is compared with what a peer application that reads to the end of its stream actually got.",
         level_note=SIM_NOTE,
         technique="runtime monitoring with fault injection: cut-at-Ok, vanish, RESET, cancel; history oracles at the API boundary",
         budget=dict(quick=200, thorough=2400),
-        require=["c03_ok_returns_checked", "c03_cut_cases_checked", "c03_eofs_checked", "c03_eof_vs_shutdown_ok_checked",
+        require=["c03_ok_coverage_vs_peer_reads_checked", "c03_ok_returns_checked", "c03_cut_cases_checked", "c03_eofs_checked", "c03_eof_vs_shutdown_ok_checked",
                  "c03_deaths_checked", "c03_returns_after_death_checked", "c03_vanish_cases_checked", "c03_resets_on_live_connection"],
         rule="cases = generated duplex executions with one injected fault (kind, side, point) each; non-trivial = at least one of "
              "the oracles' triggers occurred (an Ok return, an EOF, a connection end, a cut, a vanish with data outstanding); "
@@ -146,11 +146,11 @@ PROPS = {
                    "outstanding bytes vs the advertised window (outside loss episodes), no new payload after a processed zero "
                    "window, the slow-start bound 2*S + acknowledged bytes before the first loss event, and one segment per timer "
                    "expiry with no new payload in the peer's silent phase. The sender's knowledge (ACKs, SACKs, window, proven "
-                   "segment size, loss episodes) is reconstructed from the wire alone.",
+                   "segment size, loss episodes) is reconstructed from the wire alone. The scripted peer also reorders without loss (selective ACKs of fewer than three segments, no loss event: the slow-start bound stays in force) and, while silent for good, emits packets that acknowledge nothing new and are not duplicate ACKs (own data, changed window): after a timeout only the oldest unacknowledged segment may be transmitted until new data is acknowledged.",
         level_note=SIM_NOTE + "; the scripted peer (harness/src/peer.rs) and the wire-level sender model (harness/src/mon/sender.rs)",
         technique="runtime monitoring: scripted-peer stimulus + wire-trace oracle on every first transmission",
         budget=dict(quick=200, thorough=2400),
-        require=["c05_first_transmissions_checked", "c05_window_bound_checked", "c05_slow_start_bound_checked", "c05_timeout_sends_checked"],
+        require=["c05_silent_phases_with_non_acknowledging_packets", "c05_first_transmissions_checked", "c05_window_bound_checked", "c05_slow_start_bound_checked", "c05_timeout_sends_checked"],
         rule="a case is one generated (socket configuration, write pattern, peer policy: ACK mode, pretended losses, window mode "
              "const/walk/zero-then-open/shrink, silence) script; non-trivial = more than 2 first transmissions were judged; "
              "distinct = distinct normalised wire trace hash",
@@ -235,7 +235,7 @@ PROPS = {
                    "fault / chaos family of C01. Checked: no panic; no 'bug' error from a connection end, an API call or a WARN line; "
                    "bystander connections keep content, demultiplexing and (loss-free network) completion; post-attack connects are "
                    "served; hooked per-connection buffering (user queue, reassembly slots x 16 KiB, TX ring, segment list, inbound "
-                   "channel) within configured sizes.",
+                   "channel) within configured sizes. Miri stage (thorough): hostile scripted-peer walks and small duplex cases interpreted by Miri.",
         level_note=SIM_NOTE + "; the attacker never sends a datagram that names a connection other than its target (that would "
                    "not be 'aimed at one connection id'); a bystander damaged by a known same-connection mechanism (C01 known finding) "
                    "is counted, not judged",
@@ -259,7 +259,7 @@ PROPS = {
                    "point), random strings, mutated packets and generated header values (serialize -> parse round trip, parse -> "
                    "serialize -> parse with the documented 64-bit SACK normalisation); every parser call under catch_unwind. Plus "
                    "every datagram real sockets emit in generated whole-stack executions, checked by the independent parser for "
-                   "version, payload rule, extension shape and the connection id owed to the direction.",
+                   "version, payload rule, extension shape and the connection id owed to the direction. Miri stage (thorough): the differential codec oracle over generated strings, interpreted by Miri.",
         level_note="trusted base: harness/src/wire.rs (independent codec) and the statement of the normalisations (SACK truncated / "
                    "padded to 64 bits, last SACK extension wins, close reason = extension 3 of length 4)",
         technique="runtime monitoring: differential oracle against an independent codec over a structural grid + emitted-traffic monitor",
@@ -308,7 +308,7 @@ PROPS = {
                    "that read it; incoming connection objects are created in SYN arrival order; never more than 32 SYNs retained, a "
                    "new SYN at a full backlog gets exactly one RESET (SYN's id, ack = SYN's seq) and never a stream, a SYN with room "
                    "or a copy of a retained SYN never gets one; copies of one SYN never yield two live objects; connects after the "
-                   "abandonment all succeed; the waiting accept completes within one step of the slot's release.",
+                   "abandonment all succeed; the waiting accept completes within one step of the slot's release. Accept calls that are polled once and dropped before the dispatcher runs (acceptors nobody waits on) are mixed into the Order and Abandon shapes.",
         level_note=SIM_NOTE + "; a copy of a SYN that arrives after its first connection has ended yields a new stream (no TIME_WAIT "
                    "in the protocol): counted, not judged",
         technique="runtime monitoring: accept/connect workload with cancellation and SYN duplication + hooked queue/table state, wire and token-echo oracles",
@@ -331,7 +331,7 @@ PROPS = {
                    "far larger than the local link allows. Checked: every emitted datagram against the sender's link MTU; every "
                    "first transmission against the size proven at that moment, probes being the newest segment and alone; content "
                    "(C01 oracles) across failed probes; final segment size equals the largest payload that fits, probe count "
-                   "<= ceil(log2(range)) + 2, transfer complete.",
+                   "<= ceil(log2(range)) + 2, transfer complete. A third of the duplex cases add ordinary loss (1-3 %) to the size black hole; stream corruption is attributed to the known probe re-cut finding only if everything before the probe had been acknowledged to the sender when it was re-cut.",
         level_note=SIM_NOTE + "; 'proven size' is reconstructed from the wire (largest payload acknowledged to or received by the sender)",
         technique="runtime monitoring: size/probe-discipline oracle on every datagram + convergence oracle on black-holing simulated paths",
         budget=dict(quick=240, thorough=3000),
@@ -348,11 +348,11 @@ PROPS = {
         level_text="Invariant monitoring of the real Cubic controller driven through the CongestionController trait with millions of "
                    "generated calls (ACKs of 0/1/MSS/huge, timeouts, recovery entry/exit, MSS changes, peer-window updates, time steps "
                    "from 0 to hours, RTT estimates from 0 ns to hours): window bounds after every call, loss reactions, slow-start "
-                   "growth bound, MSS rescaling.",
+                   "growth bound, MSS rescaling. The upper bound (peer window) is checked right after every MSS change, before the peer window is re-applied.",
         level_note="trusted base: the oracle formulas (derived from the property statement) and the hook re-export of Cubic; no simulator involved",
         technique="runtime monitoring: invariant oracles after every call on generated operation sequences",
         budget=dict(quick=120, thorough=1200),
-        require=["c15_window_bounds_checked", "c15_loss_events_checked", "c15_slow_start_acks_checked", "c15_mss_changes_checked"],
+        require=["c15_upper_bound_checked_right_after_mss_change", "c15_window_bounds_checked", "c15_loss_events_checked", "c15_slow_start_acks_checked", "c15_mss_changes_checked"],
         rule="a case is one generated sequence of 1500 (quick) / 15000 (thorough) controller calls with its own starting MSS and peer "
              "window; every case is non-trivial; distinct = distinct hash of the call sequence",
         assumptions=["the upper bound is not asserted between set_mss and the next set_remote_window (the dispatcher always calls them back to back)",
@@ -400,7 +400,7 @@ PROPS = {
                    "written; a shorter one with earlier data unacknowledged must be window-limited (run-sum rule on the wire, "
                    "Segmented hook as cross-check); the ACK that drains the pipe must release held-back bytes in the same logical "
                    "step. Nagle off: at the end of every poll (hooked snapshot) unsent accepted bytes need a stated reason (window / "
-                   "congestion window exhausted, probe outstanding, timeout or recovery mode, transport pending, closing).",
+                   "congestion window exhausted, probe outstanding, timeout or recovery mode, transport pending, closing). The peer-window exemption needs evidence independent of the library's own flag: a run of first transmissions, or of consecutive cuts, that adds up to a window value the endpoint had processed.",
         level_note=SIM_NOTE + "; the Nagle-off clause reads hooked state (ring, segments, flight, cwnd) at poll boundaries",
         technique="runtime monitoring: scripted-peer stimulus + wire-trace oracle (Nagle on) and poll-boundary state oracle (Nagle off)",
         budget=dict(quick=200, thorough=2400),
@@ -418,7 +418,7 @@ PROPS = {
                    "against max(initial, maximum) at every write return; ring length <= capacity <= limit at every poll boundary "
                    "(hook); a pending write completes in the step in which a processed ACK freed space; with a peer silent for good "
                    "the pending write ends with an error when the connection fails; the C01 wire content oracle across every "
-                   "growth step of the ring.",
+                   "growth step of the ring. Real-thread stage: mtstress with tiny TX buffers (writers block and are woken by connection tasks on other threads), plain and under ThreadSanitizer; Miri stage (thorough): TX-ring growth scripts.",
         level_note=SIM_NOTE,
         technique="runtime monitoring: scripted-peer stimulus + boundary accounting oracle + hooked ring invariants",
         budget=dict(quick=200, thorough=2400),
@@ -440,6 +440,14 @@ MT_STAGE = {
     "C19": dict(quick=dict(plain=1, tsan=0, args=["--threads", "8", "--pairs", "3", "--conns", "4", "--bytes", "100000", "--rounds", "1"]),
                 thorough=dict(plain=6, tsan=2, args=["--threads", "4", "--pairs", "4", "--conns", "6", "--bytes", "400000", "--rounds", "2"])),
 }
+# Miri stage (thorough tier): small cases interpreted by Miri, one process per (kind, seed, size).
+MIRI_STAGE = {
+    "C11": [("codec", 1500)] * 16,
+    "C10": [("hostile", 0)] * 12 + [("duplex", 1200)] * 4,
+    "C01": [("duplex", 2500)] * 12,
+    "C19": [("txgrow", 3500)] * 8,
+}
+MIRI_DIR = os.path.join(HARNESS, "target-miri")
 MTSTRESS = os.path.join(HARNESS, "target", "release", "mtstress")
 TSAN_DIR = os.path.join(HARNESS, "target-tsan")
 MTSTRESS_TSAN = os.path.join(TSAN_DIR, "x86_64-unknown-linux-gnu", "release", "mtstress")
@@ -558,6 +566,79 @@ def run_mt_stage(pid, tier, seed):
     return viol, ev
 
 
+def run_miri_stage(pid, seed, jobs):
+    """Interpret small cases with Miri. Returns (violations, evidence dict)."""
+    import re
+    plan = MIRI_STAGE[pid]
+    env = dict(ENV)
+    env["MIRIFLAGS"] = "-Zmiri-disable-isolation -Zmiri-permissive-provenance"
+    base = ["cargo", "+nightly", "miri", "run", "--quiet", "--target-dir", MIRI_DIR, "--bin", "miricase", "--"]
+    t0 = time.time()
+    # the first invocation builds the interpreter's sysroot and the dependencies; do it alone
+    try:
+        p0 = subprocess.run(base + ["codec", "1", "1"], cwd=HARNESS, env=env, stdout=subprocess.PIPE, stderr=subprocess.PIPE, text=True, timeout=3600)
+        ok0 = "MIRICASE" in p0.stdout
+        err0 = p0.stderr
+    except subprocess.TimeoutExpired:
+        ok0, err0 = False, "timeout"
+    if not ok0:
+        log((err0 or "")[-2000:])
+        log("[miri] the interpreter could not be set up here; the Miri runs are skipped (recorded in the evidence)")
+        return [], {"available": False, "runs": 0}
+    todo = [(k, sz, seed * 7919 + i) for i, (k, sz) in enumerate(plan)]
+    running = []  # (Popen, kind, size, seed, start time)
+    results, viol, abandoned = [], [], 0
+    PER_RUN_LIMIT = 1500  # s; the interpreter is ~10^4 x slower than native: a case that turns out long is abandoned (no verdict)
+
+    def finish(pr, k, sz, sd):
+        out, err = pr.communicate()
+        line = [l for l in out.splitlines() if l.startswith("MIRICASE")]
+        ub = ("Undefined Behavior" in err) or ("memory leaked" in err) or ("error: unsupported operation" in err)
+        results.append(dict(kind=k, size=sz, seed=sd, exit=pr.returncode, line=(line or [""])[0][:300], miri_error=ub))
+        if ub or (pr.returncode == 1 and line):
+            os.makedirs(REPLAYS, exist_ok=True)
+            path = os.path.join(REPLAYS, f"{pid}-miri-{k}-{sd}.json")
+            with open(path, "w") as f:
+                json.dump({"property": pid, "command": " ".join(base + [k, str(sd), str(sz)]), "stdout": out[-5000:], "stderr": err[-20000:]}, f, indent=1)
+            first = next((l for l in err.splitlines() if l.startswith("error")), "oracle violation under Miri")
+            viol.append({"property": pid, "rule": "miri", "signature": re.sub(r"[0-9]+", "N", first)[:160],
+                         "detail": (line or [first])[0][:300], "replay": path, "count": 1})
+
+    while todo or running:
+        while todo and len(running) < jobs:
+            k, sz, sd = todo.pop(0)
+            pr = subprocess.Popen(base + [k, str(sd), str(sz)], cwd=HARNESS, env=env, stdout=subprocess.PIPE, stderr=subprocess.PIPE, text=True)
+            running.append((pr, k, sz, sd, time.time()))
+        time.sleep(1.0)
+        for item in list(running):
+            pr, k, sz, sd, ts = item
+            if pr.poll() is not None:
+                running.remove(item)
+                finish(pr, k, sz, sd)
+            elif time.time() - ts > PER_RUN_LIMIT:
+                pr.kill()
+                pr.communicate()
+                running.remove(item)
+                abandoned += 1
+    def tot(pat):
+        return sum(int(m.group(1)) for r in results for m in [re.search(pat, r["line"])] if m)
+    ev = {
+        "available": True,
+        "runs": len(results),
+        "clean_runs": sum(1 for r in results if r["exit"] == 0 and not r["miri_error"]),
+        "interpreter_errors": sum(1 for r in results if r["miri_error"]),
+        "runs_abandoned_as_too_long": abandoned,
+        "datagrams_interpreted": tot(r"datagrams=(\d+)"),
+        "events_interpreted": tot(r"events=(\d+)"),
+        "strings_parsed_under_miri": tot(r"strings=(\d+)"),
+        "kinds": sorted({r["kind"] for r in results}),
+        "wall_s": round(time.time() - t0, 1),
+    }
+    log(f"[{pid}] miri: {ev['runs']} interpreted runs ({ev['kinds']}), clean={ev['clean_runs']}, interpreter errors={ev['interpreter_errors']}, "
+        f"abandoned={abandoned}, datagrams={ev['datagrams_interpreted']} strings={ev['strings_parsed_under_miri']} wall={ev['wall_s']}s")
+    return viol, ev
+
+
 def load_known():
     try:
         with open(KNOWN) as f:
@@ -639,6 +720,10 @@ def run_check(pid, tier):
     if pid in MT_STAGE:
         mt_viol, mt_ev = run_mt_stage(pid, tier, seed)
         summary.setdefault("violations", []).extend(mt_viol)
+    miri_ev = None
+    if pid in MIRI_STAGE and tier == "thorough" and os.environ.get("VERIF_NO_MIRI") != "1":
+        miri_viol, miri_ev = run_miri_stage(pid, seed, jobs)
+        summary.setdefault("violations", []).extend(miri_viol)
 
     known = load_known()
     unlisted = []
@@ -673,7 +758,12 @@ def run_check(pid, tier):
         f"known={sum(d['count'] for d in known_seen.values())} wall={wall:.1f}s")
     log("[counters] " + " ".join(f"{k}={v}" for k, v in sorted(counters.items())))
 
-    extra = {"real_thread_stage": mt_ev} if mt_ev else None
+    extra = {}
+    if mt_ev:
+        extra["real_thread_stage"] = mt_ev
+    if miri_ev:
+        extra["miri_stage"] = miri_ev
+    extra = extra or None
     if unlisted:
         write_evidence(pid, tier, seed, cfg, summary, wall, len(unlisted), extra)
         seen = set()
